@@ -88,9 +88,18 @@ Definition chk_shape1 (p : prog) (o : iobs) : N :=
       else 0
   end%N.
 
-(* is the program inside the hypotheses of the soundness corollary? *)
+(* the one per-program side condition of the soundness corollary: every statement's definitions
+   can be read simultaneously (seq_ok) *)
 Definition chk_guard1 (p : prog) : bool :=
   body_guard (p_num p) (arg_env (p_args p)) (p_ret p) (p_body p).
+(* ... and the two facts the theorems derive from an injective numbering, evaluated on the
+   numbering TABLE of this run: assigned symbol numbers distinct, no other binding clobbered *)
+Definition chk_hyg1 (p : prog) : bool :=
+  body_guard_g true (p_num p) (arg_env (p_args p)) (p_ret p) (p_body p).
+(* the hypotheses on the signature and on the syntax: ty_good argument / return types (no empty
+   tuple, no sized component of fewer than 2 bits), no empty tuple expression *)
+Definition chk_wf1 (p : prog) : bool :=
+  forallb (fun a => ty_good (snd a)) (p_args p) && ty_good (p_ret p) && forallb stmt_ne (p_body p).
 
 (* does the program contain an if-expression whose branches have DIFFERENT translated types
    (the code widens the narrower branch; harness/shadow.py keeps CPython's dynamic width)? *)
@@ -194,6 +203,21 @@ Definition chk_guard (l : list (N * (prog * iobs))) : list N :=
   flat_map (fun c => match snd (snd c) with
                      | IRaise => []
                      | IOk _ _ _ _ => if chk_guard1 (fst (snd c)) then [] else [fst c]
+                     end) l.
+
+(* accepted programs: id * 10 + (1 if the numbering table fails the hygiene facts) + (2 if the
+   signature / syntax hypotheses fail) *)
+Definition chk_side (l : list (N * (prog * iobs))) : list N :=
+  flat_map (fun c => match snd (snd c) with
+                     | IRaise => []
+                     | IOk _ _ _ _ =>
+                         let p := fst (snd c) in
+                         match negb (chk_hyg1 p), negb (chk_wf1 p) with
+                         | false, false => []
+                         | true, false => [(fst c * 10 + 1)%N]
+                         | false, true => [(fst c * 10 + 2)%N]
+                         | true, true => [(fst c * 10 + 3)%N]
+                         end
                      end) l.
 
 (* all codes are reported here (0 included): id * 10 + code *)
